@@ -30,6 +30,22 @@ CLAIMS["C05"] = {
     "technique": "TLA+ schedule spec + TLC; exhaustive slice-partition conformance; trace validation of real runs under every gradient strategy",
     "design_ref": "§5 C05",
 }
+CLAIMS["C06"] = {
+    "engine": "sched",
+    "level": "model_checking",
+    "text": "Schedule.tla has Reset, FwdStep, PartialStart(a,b,reset), PartialReturn; TLC checks for all T<=6/14 and all sequences of full runs, consecutive partial runs and resets that a returned run has executed exactly steps 0..t-1 (ExecutedIsPrefix): the abstract state is a function of the executed steps. Real executions (run_fdtd twice on a reused container, custom_fdtd_forward over random split points starting from a dirty container with reset, then run_fdtd again; detectors of four kinds with switches, lossy slab, PML/PEC) are observed through the step hooks and validated by TLC against these actions; runs that executed the same steps must return the same (t, E, H, detector) fingerprints; ArrayContainer.reset() must zero fields/detector states and keep materials.",
+    "note": "State equality through fixed pseudo-random linear functionals (relative 5e-8). Split points are seeded samples.",
+    "technique": "TLA+ schedule spec + TLC; trace validation of hook events from split / repeated real runs",
+    "design_ref": "§5 C06",
+}
+CLAIMS["C14"] = {
+    "engine": "sched",
+    "level": "model_checking",
+    "text": "SwitchDefs.tla states the time-window rule (start/end/duration inference incl. period forms, inclusive ends, interval, fixed lists, always-off) in exact quarter-step integer time; Switch.tla runs a switched component over a run (one record per active step, slot = rank, inject only when on). TLC checks RecordsAreActiveSteps, SlotIsRank, InjectOnlyWhenOn, WindowContiguous, EndStepInclusive for all parameter combinations in the bound and rejects an exclusive-end rule. The real OnOffSwitch.calculate_on_list / calculate_time_step_to_on_arr_idx are evaluated on ~3k (quick) schedule combinations and real runs with a switched FieldDetector+EnergyDetector (vs always-on twins) and a switched dipole (step with vs without the source from the same state) are checked by TLC in Trace_Switch against the rule.",
+    "note": "Ambiguous specifications that the code rejects by raising are checked as 'drift' only. Run-level schedules avoid window edges reachable only through inexact float sums.",
+    "technique": "TLA+ window-rule spec + TLC; exhaustive function conformance + trace validation of switched detector/source runs",
+    "design_ref": "§5 C14",
+}
 NOT_APPLICABLE = {}
 
 # claim files (checks/Cxx.claim.json) written by builders are merged only after review by the coordinator
